@@ -378,6 +378,62 @@ impl FileWatcher {
     }
 }
 
+/// Verification seams (only compiled with the `verif-hooks` cargo feature): they let a
+/// simulator drive the watcher with its own resources and event batches instead of
+/// the notify stack.
+#[cfg(feature = "verif-hooks")]
+#[allow(dead_code)]
+pub enum VerifWatchSignal {
+    Exit,
+    Watch(PathBuf),
+    Unwatch(PathBuf),
+}
+
+#[cfg(feature = "verif-hooks")]
+#[allow(dead_code)]
+impl FileWatcher {
+    pub fn verif_new(
+        process_option: &ProcessOptions,
+        resources: Resources,
+        current_working_path: Option<PathBuf>,
+    ) -> Self {
+        let mut watcher = Self::new(process_option);
+        watcher.resources = resources;
+        watcher.current_working_path = current_working_path;
+        watcher
+    }
+
+    /// What `start` does before the debouncer exists.
+    pub fn verif_first_run(&mut self) {
+        self.run_worker_tree();
+    }
+
+    /// What the debouncer callback does with a batch of events.
+    pub fn verif_batch(&mut self, events: Vec<DebouncedEvent>) {
+        self.process_events(events);
+        self.run_worker_tree();
+    }
+
+    pub fn verif_worker_tree(&self) -> Option<&WorkerTree> {
+        self.worker_tree.as_ref()
+    }
+
+    /// Drain the signals the main loop of `start` would have received.
+    pub fn verif_drain_signals(&mut self) -> Vec<VerifWatchSignal> {
+        let mut signals = Vec::new();
+        if let Some(receiver) = self.receiver.as_ref() {
+            while let Ok(signal) = receiver.try_recv() {
+                signals.push(match signal {
+                    WatcherSignal::Exit => VerifWatchSignal::Exit,
+                    WatcherSignal::Watch(path) => VerifWatchSignal::Watch(path),
+                    WatcherSignal::Unwatch(path) => VerifWatchSignal::Unwatch(path),
+                });
+            }
+        }
+        signals
+    }
+}
+
 fn diff_sets<T: Eq + Hash>(
     new_set: &HashSet<T>,
     previous_set: &HashSet<T>,
